@@ -108,13 +108,16 @@ pub fn check_case(_ctx: &Ctx, case: &Case, t: &mut Tally) {
     }
     // demands: element-wise sum of the declared lines of each service
     for (srv, got) in [("ACS", &comps.needs.ACS), ("CAL", &comps.needs.CAL), ("REF", &comps.needs.REF)] {
+        // (a demand may be declared with another number of values than the components, e.g. one annual value;
+        // the lines of one service have the same length in generated files)
         let mut want: Option<Vec<f64>> = None;
-        let mut mag = vec![0.0f64; n];
+        let mut mag: Vec<f64> = vec![];
         for l in &spec.lines {
             if let Line::Need { srv: s, v } = l {
                 if s == srv {
-                    let w = want.get_or_insert_with(|| vec![0.0; n]);
-                    for i in 0..n {
+                    let w = want.get_or_insert_with(|| vec![0.0; v.len()]);
+                    mag.resize(w.len(), 0.0);
+                    for i in 0..v.len().min(w.len()) {
                         w[i] += v[i] as f64;
                         mag[i] += v[i].abs() as f64;
                     }
@@ -125,7 +128,7 @@ pub fn check_case(_ctx: &Ctx, case: &Case, t: &mut Tally) {
             (None, None) => {}
             (Some(w), Some(g)) => {
                 t.count("demand_services_checked");
-                let bad = g.len() != n || (0..n).any(|i| (g[i] as f64 - w[i]).abs() > 3e-7 * mag[i]);
+                let bad = g.len() != w.len() || (0..w.len()).any(|i| (g[i] as f64 - w[i]).abs() > 3e-7 * mag[i]);
                 if bad {
                     t.violation("C05.demand_altered", format!("DEMANDA {srv}: parsed {:?} but the declared lines add up to {:?}", g, w), || wit(json!({"service": srv})));
                 }
